@@ -10,10 +10,19 @@ From PM Require Import Lib.Bytes Lib.PyStr Tls.Intercept.
 (* ---- equality tests ---- *)
 Definition obytes_eqb := option_eqb bytes_eqb.
 
+Fixpoint list_eqb_ {A} (eqb : A -> A -> bool) (x y : list A) : bool :=
+  match x, y with
+  | [], [] => true
+  | a :: x', c :: y' => eqb a c && list_eqb_ eqb x' y'
+  | _, _ => false
+  end.
+
 Definition wrap_call_eqb (a c : wrap_call) : bool :=
   obytes_eqb (wc_cafile a) (wc_cafile c) && Bool.eqb (wc_check_hostname a) (wc_check_hostname c) &&
   verify_mode_eqb (wc_verify_mode a) (wc_verify_mode c) &&
-  obytes_eqb (wc_server_hostname a) (wc_server_hostname c).
+  obytes_eqb (wc_server_hostname a) (wc_server_hostname c) &&
+  list_eqb_ bytes_eqb (wc_extra_trust a) (wc_extra_trust c) &&
+  Bool.eqb (wc_settings_default a) (wc_settings_default c).
 
 Definition cmd_eqb (a c : openssl_cmd) : bool :=
   match a, c with
@@ -46,6 +55,7 @@ Fixpoint list_eqb {A} (eqb : A -> A -> bool) (x y : list A) : bool :=
 (* ---- the scripted world ---- *)
 Inductive chain :=
 | ChainTrustedBy (cafile : bytes)     (* verifies against exactly this trust store, within its validity period *)
+| ChainPlatform                       (* issuer is only in OpenSSL's default verify paths (platform store) *)
 | ChainUntrusted                      (* self-signed / unknown issuer *)
 | ChainExpired.                       (* issuer trusted but notAfter is in the past *)
 
@@ -71,8 +81,14 @@ Definition sim_handshake (sc : script) (c : wrap_call) : hs_result :=
   match sc_transport sc with
   | Some e => HsRaise e
   | None =>
+      (* effective trust store = cafile + whatever was loaded into the context afterwards *)
       let chain_ok := match sc_chain sc with
-                      | ChainTrustedBy ca => obytes_eqb (wc_cafile c) (Some ca)
+                      | ChainTrustedBy ca =>
+                          obytes_eqb (wc_cafile c) (Some ca) ||
+                          mem_bytes (bs "load_verify_locations:" ++ ca) (wc_extra_trust c)
+                      | ChainPlatform =>
+                          mem_bytes (bs "load_default_certs") (wc_extra_trust c) ||
+                          mem_bytes (bs "set_default_verify_paths") (wc_extra_trust c)
                       | _ => false
                       end in
       let name_ok := match wc_server_hostname c with
@@ -129,7 +145,7 @@ Record observed := mkObs {
 }.
 
 Definition mode_code (m : hmode) : N :=
-  match m with Running => 0 | MustFlush => 1 | ReadsTeared => 2 | Closed => 3 end.
+  match m with Running => 0 | MustFlush => 1 | ReadsTeared => 2 | Closed => 3 | WritesTeared => 4 end.
 Definition cl_code (c : cl_state) : N := match c with ClPlain => 0 | ClTls => 1 | ClDead => 2 end.
 Definition up_code (u : up_state) : N := match u with UpNone => 0 | UpPlain => 1 | UpTls => 2 | UpDead => 3 end.
 
@@ -193,7 +209,7 @@ Definition model_obs (c : case) : trace * observed * observed :=
 (* ================================================================== examples and the outcome table *)
 Definition ex_flags : flags :=
   mkFlags (Some (bs "/x/ca.key")) (Some (bs "/certs")) (Some (bs "/x/sign.key")) (Some (bs "/x/ca.pem"))
-          (Some (bs "/x/trust.pem")) false (bs "HTTP/1.1 502 Bad Gateway").
+          (Some (bs "/x/trust.pem")) false (bs "HTTP/1.1 502 Bad Gateway") 65536.
 
 (* a script in which everything but the origin's certificate is fine; requests are forwarded as they are *)
 Definition ex_script (ch : chain) (names : list bytes) : script :=
@@ -220,9 +236,9 @@ Definition pub_of (host : bytes) : bytes := path_join cert_dir (host ++ bs ".pub
 Definition sweep_flags : list flags :=
   flat_map (fun ins =>
     [mkFlags (Some (bs "/x/ca.key")) (Some cert_dir) (Some (bs "/x/sign.key")) (Some (bs "/x/ca.pem"))
-             (Some (bs "/x/trust.pem")) ins (bs "502");
+             (Some (bs "/x/trust.pem")) ins (bs "502") 65536;
      mkFlags (Some (bs "/x/ca.key")) (Some cert_dir) None (Some (bs "/x/ca.pem"))
-             (Some (bs "/x/trust.pem")) ins (bs "502")]) [false; true].
+             (Some (bs "/x/trust.pem")) ins (bs "502") 65536]) [false; true].
 
 Definition sweep_openssl : list (run_result * run_result * run_result) :=
   [(RTrue, RTrue, RTrue); (RFalse, RTrue, RTrue); (RTrue, RTrue, RFalse); (RTrue, RRaise TimeoutExpired, RTrue)].
@@ -255,7 +271,7 @@ Definition sweep_scripts (hostp : bytes * bool) : list script :=
     sweep_openssl)
     [None; subj])
     [[bare]; [bs "other.example"]])
-    [good; ChainTrustedBy (bs "/x/other.pem"); ChainUntrusted; ChainExpired].
+    [good; ChainTrustedBy (bs "/x/other.pem"); ChainPlatform; ChainUntrusted; ChainExpired].
 
 Definition sweep_table (hostp : bytes * bool) : list scenario :=
   let host := fst hostp in
